@@ -196,7 +196,7 @@ fn ix_body<C: IndexContainer<usize> + Clone>(v: &[u64], compressed: bool, list: 
     vassert!(hp.iter().all(|p| p.0 <= p.1), "VF:index.heap.used_exceeds_capacity");
     let used: usize = hp.iter().map(|p| p.0).sum();
     if compressed {
-        vassert!(hp.len() == 2, "VF:index.heap.pairs");
+        // (how many (used, capacity) pairs a container reports is not specified: only their sums are compared)
         // C18: every entry that is not absorbed by the stride is accounted with at least 4 bytes
         vassert!(used >= 4 * (want.len() - doc_cost_prefix(&want).1), "VF:index.heap.used_below_entries");
         vassert!(used == doc_cost(&want), "VF:index.heap.cost_differs_from_documented_rule");
@@ -245,45 +245,73 @@ fn pre_dense(v: &[u64]) -> bool {
 fn doms_dense() -> Vec<Vec<u64>> {
     vec![range(2), vec![0, 1, 2, 3, 17, 40], range(4)]
 }
+/// What a FlatStack reports beyond its region: the pairs of `total` that remain after removing, one for one, the pairs
+/// a twin region with the same history reports (order and grouping of the callback invocations are not specified, so
+/// nothing is assumed about positions).  `None` when the twin's pairs are not all found (capacities follow an
+/// unspecified policy): then only the summed used bytes can be compared.
+fn own_index_pairs(total: &[(usize, usize)], region: &[(usize, usize)]) -> Option<Vec<(usize, usize)>> {
+    let mut rest = total.to_vec();
+    for p in region {
+        let k = rest.as_slice().iter().position(|q| q == p)?;
+        rest.swap_remove(k);
+    }
+    Some(rest)
+}
+fn check_own_indices_free(total: Vec<(usize, usize)>, region: Vec<(usize, usize)>) {
+    let used = |p: &[(usize, usize)]| -> usize { p.iter().map(|x| x.0).sum() };
+    // used bytes: whatever the stack reports beyond its region is what its own indices cost
+    vassert!(used(&total) == used(&region), "VF:dense.flatstack_indices_cost_heap");
+    if let Some(own) = own_index_pairs(&total, &region) {
+        vassert!(own.iter().all(|p| p.1 == 0), "VF:dense.flatstack_indices_allocate_heap");
+    }
+}
 fn run_dense(v: &[u64]) {
     let n = v[1] as usize;
     if v[0] == 0 {
-        let mut fs = <FlatStack<ConsecutiveIndexPairs<StringRegion>, IndexOptimized>>::default();
+        type R = ConsecutiveIndexPairs<StringRegion>;
+        let mut fs = <FlatStack<R, IndexOptimized>>::default();
+        // (the twin region receives exactly what the stack forwards to its region)
+        let mut twin = R::default();
         if v[2] >= 2 {
             // an earlier life of the stack: only empty items (or mixed ones), then clear
             for i in 0..3 {
-                fs.copy(if v[2] == 2 { "" } else { string(i) });
+                let w = if v[2] == 2 { "" } else { string(i) };
+                fs.copy(w);
+                let _ = twin.push(w);
             }
             fs.clear();
+            twin.clear();
         }
         for i in 0..n {
             fs.copy(string(v[2] + i as u64));
+            let _ = twin.push(string(v[2] + i as u64));
             if i == 1 {
                 fs.reserve(3);
             }
         }
         // a second batch through extend (which reserves by size_hint) on the populated stack
         fs.extend((0..n).map(|i| string(v[2] + 1 + i as u64)));
+        for i in 0..n {
+            let _ = twin.push(string(v[2] + 1 + i as u64));
+        }
         // a stack pre-sized from this one absorbs the same contents without spending anything on its own indices either
-        let mut fs2 = <FlatStack<ConsecutiveIndexPairs<StringRegion>, IndexOptimized>>::merge_capacity([&fs, &fs].into_iter());
+        let mut fs2 = <FlatStack<R, IndexOptimized>>::merge_capacity([&fs, &fs].into_iter());
+        let mut twin2 = R::merge_regions([&twin, &twin].into_iter());
         for i in 0..n {
             fs2.copy(string(v[2] + i as u64));
+            let _ = twin2.push(string(v[2] + i as u64));
         }
-        let pairs2 = collect_heap(|cb| fs2.heap_size(cb));
-        vassert!(pairs2[pairs2.len() - 2..].iter().all(|p| p.0 == 0 && p.1 == 0), "VF:dense.flatstack_indices_allocate_heap");
-        let region_pairs = collect_heap(|cb| fs.heap_size(cb));
-        // the last two pairs are the FlatStack's own index container (u32 and u64 lists)
-        let own = &region_pairs[region_pairs.len() - 2..];
-        vassert!(own.iter().all(|p| p.0 == 0), "VF:dense.flatstack_indices_cost_heap");
-        vassert!(own.iter().all(|p| p.1 == 0), "VF:dense.flatstack_indices_allocate_heap");
+        check_own_indices_free(collect_heap(|cb| fs2.heap_size(cb)), collect_heap(|cb| twin2.heap_size(cb)));
+        check_own_indices_free(collect_heap(|cb| fs.heap_size(cb)), collect_heap(|cb| twin.heap_size(cb)));
     } else {
-        let mut fs = <FlatStack<ColumnsRegion<MirrorRegion<u8>>, IndexOptimized>>::default();
+        type R = ColumnsRegion<MirrorRegion<u8>>;
+        let mut fs = <FlatStack<R, IndexOptimized>>::default();
+        let mut twin = R::default();
         for i in 0..n {
             fs.copy(ITEMS[(v[2] as usize + i) % 4]);
+            let _ = twin.push(ITEMS[(v[2] as usize + i) % 4]);
         }
-        let region_pairs = collect_heap(|cb| fs.heap_size(cb));
-        let own = &region_pairs[region_pairs.len() - 2..];
-        vassert!(own.iter().all(|p| p.0 == 0), "VF:dense.flatstack_indices_cost_heap");
+        check_own_indices_free(collect_heap(|cb| fs.heap_size(cb)), collect_heap(|cb| twin.heap_size(cb)));
     }
 }
 
@@ -538,6 +566,10 @@ pub fn harnesses() -> Vec<H> {
             bound: "read items of SliceRegion<MirrorRegion<u8>>, ColumnsRegion<MirrorRegion<u8>>, Option<&[u8]>, Result<&[u8],&str>, SliceRegion<SliceRegion<..>>: 4 values x 5 prior clone_onto targets (empty/shorter/longer/equal/other variant) x region-backed and owned-borrowed; region-to-region push (indices compared with the canonical form on a twin), also into ConsecutiveIndexPairs<SliceRegion<..>> followed by further items; owned-borrowed read item of SliceRegion<OptionRegion<StringRegion>> versus &Vec (index, reads, used bytes)", kani: false },
         H { name: "dense_owned_forms", props: &["C12", "C20", "C01"], nargs: 8, pre: pre_dof, doms: doms_dof, run: run_dof, panic_ok: false,
             bound: "ConsecutiveIndexPairs<OwnedRegion<u8>> and ColumnsRegion<OwnedRegion<u8>>: three items (rows of 1..3 cells) with lengths over {0,1,3,9,40}, each pushed as a slice, as an owned Vec of exact capacity or as an owned Vec with 64 bytes of spare capacity; optionally after an earlier life and clear: indices 0,1,2 and every row re-read after every push", kani: false },
+        H { name: "value_kinds", props: &["C01", "C14"], nargs: 3, pre: pre_vk, doms: doms_vk, run: run_vk, panic_ok: false,
+            bound: "MirrorRegion<f64> / <f32>, OptionRegion<MirrorRegion<f64>>, SliceRegion<MirrorRegion<f64>> over 7 bit patterns (+0, -0, quiet NaN, NaN with payload and sign, 1.5, inf, smallest subnormal) compared by bits; tuple regions of arity 1 and 3 and a slice of triples: read item, into_owned, borrow_as and clone_onto over 7 prior targets (incl. the opposite zero / other field values / longer and shorter vectors)", kani: false },
+        H { name: "heap_composites", props: &["C18"], nargs: 3, pre: pre_hc, doms: doms_hc, run: run_hc, panic_ok: false,
+            bound: "tuple regions whose fields own several allocations ((slice of strings, string), (result of string / bytes, byte), a tuple in a tuple) with 0..3 items: summed used bytes equal those of the fields kept separately / are at least the payload; Vec<[u8;32]> and Vec<(u32,u64)> regions: used bytes at least size_of::<T>() per element", kani: false },
         H { name: "read_item_ordering", props: &["C15"], nargs: 11, pre: pre_cmp, doms: doms_cmp, run: run_cmp, panic_ok: false,
             bound: "SliceRegion<MirrorRegion<u8>>: triples of u8 vectors of length 0..2 (native: bytes over {0,1,255}), each side region-backed from two different regions or owned-borrowed: ==, !=, <, <=, >, >=, partial_cmp, cmp, max, min equal those of the Vecs; reflexive, antisymmetric, transitive", kani: false },
     ]
@@ -604,6 +636,189 @@ fn run_dof(v: &[u64]) {
             for (j, x) in want.iter().enumerate() {
                 let got = r.index(j);
                 vassert!(got.len() == x.len() && got.iter().zip(x.iter()).all(|(a, b)| a == b.as_slice()), "VF:dense_owned.kth_row_differs");
+            }
+        }
+    }
+}
+
+// ---------------------------------------------------------------------------------------------------- value kinds the byte-based catalogue lacks
+// Floating-point values whose `==` is not identity (signed zeros, NaN payloads) through MirrorRegion, and tuple regions of
+// odd arity (1 and 3 fields): the read item and each of its owned conversions describe exactly the pushed value
+// (compared by bits), whatever the `clone_onto` target held before.
+// args: kind (0 f64, 1 f32, 2 option<f64>, 3 slice<f64>, 4 one-tuple, 5 triple, 6 slice of triples), x (value selector), t (prior target selector)
+const F64S: [u64; 7] = [0x0000_0000_0000_0000, 0x8000_0000_0000_0000, 0x7ff8_0000_0000_0000, 0xfff0_0000_0000_0001, 0x3ff8_0000_0000_0000, 0x7ff0_0000_0000_0000, 0x0000_0000_0000_0001];
+fn pre_vk(v: &[u64]) -> bool {
+    v[0] < 7 && v[1] < 7 && v[2] < 7
+}
+fn doms_vk() -> Vec<Vec<u64>> {
+    vec![range(7), range(7), range(7)]
+}
+fn run_vk(v: &[u64]) {
+    use flatcontainer::impls::tuple::{TupleABCRegion, TupleARegion};
+    use flatcontainer::OptionRegion;
+    let (xb, tb) = (F64S[v[1] as usize], F64S[v[2] as usize]);
+    match v[0] {
+        0 => {
+            let (x, t0) = (f64::from_bits(xb), f64::from_bits(tb));
+            let mut r = <MirrorRegion<f64>>::default();
+            let _ = r.push(t0);
+            let i = r.push(x);
+            let it = r.index(i);
+            vassert!(it.to_bits() == xb, "VF:values.float.read_differs");
+            vassert!(it.into_owned().to_bits() == xb, "VF:values.float.into_owned_differs");
+            let mut t = t0;
+            it.clone_onto(&mut t);
+            vassert!(t.to_bits() == xb, "VF:values.float.clone_onto_differs");
+            vassert!(<f64 as IntoOwned>::borrow_as(&t).to_bits() == xb, "VF:values.float.borrow_as_differs");
+        }
+        1 => {
+            let (x, t0) = (f32::from_bits((xb >> 32) as u32), f32::from_bits((tb >> 32) as u32));
+            let mut r = <MirrorRegion<f32>>::default();
+            let i = r.push(x);
+            let it = r.index(i);
+            vassert!(it.to_bits() == x.to_bits() && it.into_owned().to_bits() == x.to_bits(), "VF:values.float.read_differs");
+            let mut t = t0;
+            it.clone_onto(&mut t);
+            vassert!(t.to_bits() == x.to_bits(), "VF:values.float.clone_onto_differs");
+        }
+        2 => {
+            let (x, t0) = (f64::from_bits(xb), f64::from_bits(tb));
+            let mut r = <OptionRegion<MirrorRegion<f64>>>::default();
+            let i = r.push(Some(x));
+            let it = r.index(i);
+            vassert!(it.map(|f| f.to_bits()) == Some(xb), "VF:values.float.read_differs");
+            let mut t = Some(t0);
+            it.clone_onto(&mut t);
+            vassert!(t.map(|f| f.to_bits()) == Some(xb), "VF:values.float.clone_onto_differs");
+        }
+        3 => {
+            let (x, t0) = (f64::from_bits(xb), f64::from_bits(tb));
+            let mut r = <SliceRegion<MirrorRegion<f64>>>::default();
+            let i = r.push([x, t0, x].as_slice());
+            let it = r.index(i);
+            let bits = |w: &[f64]| -> Vec<u64> { w.iter().map(|f| f.to_bits()).collect() };
+            vassert!(it.iter().map(|f| f.to_bits()).collect::<Vec<_>>() == vec![xb, tb, xb], "VF:values.float.read_differs");
+            vassert!(bits(&it.into_owned()) == vec![xb, tb, xb], "VF:values.float.into_owned_differs");
+            // a longer target whose overlapping prefix holds the other values
+            let mut t = vec![t0, x, t0, t0, x];
+            it.clone_onto(&mut t);
+            vassert!(bits(&t) == vec![xb, tb, xb], "VF:values.float.clone_onto_differs");
+        }
+        4 => {
+            let (a, b) = (v[1] as u8, v[2] as u8 + 100);
+            let mut r = <TupleARegion<MirrorRegion<u8>>>::default();
+            let _ = r.push((b,));
+            let i = r.push((a,));
+            let it = r.index(i);
+            vassert!(it == (a,) && it.into_owned() == (a,), "VF:values.tuple.read_differs");
+            let mut t = (b,);
+            it.clone_onto(&mut t);
+            vassert!(t == (a,), "VF:values.tuple.clone_onto_differs");
+        }
+        5 => {
+            type R = TupleABCRegion<MirrorRegion<u8>, OwnedRegion<u8>, StringRegion>;
+            let words = ["", "a", "é𝄞", "hello", "xyz", "q", "zz"];
+            let x = (v[1] as u8, vec![v[1] as u8; v[1] as usize % 4], words[v[1] as usize].to_string());
+            let t0 = (v[2] as u8 + 100, vec![9u8; (v[2] as usize + 1) % 5], words[(v[2] as usize + 3) % 7].to_string() + "!");
+            let mut r = R::default();
+            let _ = r.push((t0.0, t0.1.as_slice(), t0.2.as_str()));
+            let i = r.push((x.0, x.1.as_slice(), x.2.as_str()));
+            let it = r.index(i);
+            vassert!(it.0 == x.0 && it.1 == x.1.as_slice() && it.2 == x.2, "VF:values.tuple.read_differs");
+            vassert!(it.into_owned() == x, "VF:values.tuple.into_owned_differs");
+            let mut t = t0.clone();
+            it.clone_onto(&mut t);
+            vassert!(t == x, "VF:values.tuple.clone_onto_differs");
+        }
+        _ => {
+            type E = TupleABCRegion<MirrorRegion<u8>, MirrorRegion<u8>, MirrorRegion<u8>>;
+            let x: Vec<(u8, u8, u8)> = (0..(v[1] as u8 % 4)).map(|k| (k, k + 10, k + 20)).collect();
+            let t0: Vec<(u8, u8, u8)> = (0..(v[2] as u8 % 5)).map(|k| (k + 100, k + 110, k + 120)).collect();
+            let mut r = <SliceRegion<E>>::default();
+            let _ = r.push(t0.as_slice());
+            let i = r.push(x.as_slice());
+            let it = r.index(i);
+            vassert!(it.len() == x.len() && it.iter().zip(x.iter()).all(|(a, b)| a == b), "VF:values.tuple.read_differs");
+            vassert!(it.into_owned() == x, "VF:values.tuple.into_owned_differs");
+            let mut t = t0.clone();
+            it.clone_onto(&mut t);
+            vassert!(t == x, "VF:values.tuple.clone_onto_differs");
+        }
+    }
+}
+
+// ---------------------------------------------------------------------------------------------------- heap accounting of composite tuple fields and of plain vectors
+// A tuple field that owns several allocations (a slice region: offsets + elements; a result region: two sides; a nested
+// tuple) contributes all of them; a `Vec<T>` region accounts `size_of::<T>()` bytes per element also when the element is
+// larger than its alignment.
+// args: kind (0..4), n (items 0..3), w (payload selector)
+fn pre_hc(v: &[u64]) -> bool {
+    v[0] < 5 && v[1] < 4 && v[2] < 3
+}
+fn doms_hc() -> Vec<Vec<u64>> {
+    vec![range(5), range(4), range(3)]
+}
+fn run_hc(v: &[u64]) {
+    use flatcontainer::impls::tuple::TupleABRegion;
+    use flatcontainer::ResultRegion;
+    crate::section("VF:heap.composite");
+    let sums = |p: Vec<(usize, usize)>| -> (usize, usize) { (p.iter().map(|x| x.0).sum(), p.iter().map(|x| x.1).sum()) };
+    let words: [&str; 4] = ["seventeen bytes!!", "é𝄞", "", "a considerably longer string of forty-one"];
+    let n = v[1] as usize;
+    match v[0] {
+        0 => {
+            // (slice of strings, string): the tuple against its two fields kept separately
+            let mut t = <TupleABRegion<SliceRegion<StringRegion>, StringRegion>>::default();
+            let (mut a, mut b) = (<SliceRegion<StringRegion>>::default(), <StringRegion>::default());
+            for k in 0..n {
+                let row: Vec<&str> = (0..=k).map(|j| words[(j + v[2] as usize) % 4]).collect();
+                let _ = t.push((row.as_slice(), words[k % 4]));
+                let _ = a.push(row.as_slice());
+                let _ = b.push(words[k % 4]);
+                let (ta, fa, fb) = (sums(collect_heap(|cb| t.heap_size(cb))), sums(collect_heap(|cb| a.heap_size(cb))), sums(collect_heap(|cb| b.heap_size(cb))));
+                vassert!(ta.0 == fa.0 + fb.0, "VF:heap.composite.tuple_used_differs_from_its_fields");
+                vassert!(ta.1 >= ta.0 && ta.1 >= fa.0 + fb.0, "VF:heap.composite.tuple_capacity_below_used");
+            }
+        }
+        1 => {
+            // (result of string / bytes, byte)
+            let mut t = <TupleABRegion<ResultRegion<StringRegion, OwnedRegion<u8>>, MirrorRegion<u8>>>::default();
+            let mut a = <ResultRegion<StringRegion, OwnedRegion<u8>>>::default();
+            for k in 0..n {
+                let item: Result<&str, &[u8]> = if (k + v[2] as usize) % 2 == 0 { Ok(words[k % 4]) } else { Err(&[1, 2, 3, 4, 5][..k + 1]) };
+                let _ = t.push((item, k as u8));
+                let _ = a.push(item);
+                let (ta, fa) = (sums(collect_heap(|cb| t.heap_size(cb))), sums(collect_heap(|cb| a.heap_size(cb))));
+                vassert!(ta.0 == fa.0, "VF:heap.composite.tuple_used_differs_from_its_fields");
+            }
+        }
+        2 => {
+            // a tuple nested in a tuple
+            let mut t = <TupleABRegion<TupleABRegion<StringRegion, OwnedRegion<u8>>, StringRegion>>::default();
+            let mut payload = 0usize;
+            for k in 0..n {
+                let w = words[(k + v[2] as usize) % 4];
+                let _ = t.push(((w, &[7u8, 7, 7][..k % 3 + 1]), w));
+                payload += 2 * w.len() + k % 3 + 1;
+                let ta = sums(collect_heap(|cb| t.heap_size(cb)));
+                vassert!(ta.0 >= payload, "VF:heap.composite.used_below_payload");
+            }
+        }
+        3 => {
+            // plain vector region with elements larger than their alignment
+            let mut r = <Vec<[u8; 32]>>::default();
+            for k in 0..n {
+                let _ = <Vec<[u8; 32]> as Push<[u8; 32]>>::push(&mut r, [k as u8; 32]);
+                let h = sums(collect_heap(|cb| Region::heap_size(&r, cb)));
+                vassert!(h.0 >= 32 * (k + 1) && h.1 >= h.0, "VF:heap.composite.vec_used_below_element_bytes");
+            }
+        }
+        _ => {
+            let mut r = <Vec<(u32, u64)>>::default();
+            for k in 0..n {
+                let _ = <Vec<(u32, u64)> as Push<(u32, u64)>>::push(&mut r, (k as u32, v[2]));
+                let h = sums(collect_heap(|cb| Region::heap_size(&r, cb)));
+                vassert!(h.0 >= std::mem::size_of::<(u32, u64)>() * (k + 1) && h.1 >= h.0, "VF:heap.composite.vec_used_below_element_bytes");
             }
         }
     }
